@@ -37,3 +37,21 @@ rb'raw \n bytes'; Rb"a"; rB'b'; RB'c'; br'd'; bR'e'; Br'f'; BR'g'
 'é'; "日本語"; '𝄞'; '\ud800'; 'a\x00b'; '\udc80\udfff'
 'tab	inside'; 'form feed inside'
 x = 'a' if b else "c" 'd'
+
+# numeric literals written directly against a keyword (accepted by the reference, with a deprecation warning)
+adj_a = 0 if y<1else 2
+adj_b = [1for x in y]
+adj_c = 1if x else 2
+adj_d = 1or 2
+adj_e = 1and 2
+adj_f = 1in y
+adj_g = 1is not None
+adj_h = [0x1for x in y]
+adj_i = 1_0if x else 2_0if y else 3
+adj_j = 1.5if x else .5if y else 5.if z else 0
+adj_k = 1jif x else 2.5jif y else 0
+adj_l = 0b1and 0o7or 0xaif x else 0
+adj_m = 1e5if x else 1e-5if y else 1E+5or 2
+adj_n = [1,2][0if x else 1]
+adj_o = {1:2for x in y}
+adj_p = 0if x else 00and 0_0is 0
